@@ -291,8 +291,12 @@ def run_shmwire(spec, col: Collector):
                     col.violation("shm-wire-status-differs", f"status of a written dataset answered {st!r}", None, i)
                 rpc(api.PurgeRequest(key=key))
                 st = rpc(api.DatasetStatusRequest(key=key))
-                if not isinstance(st, api.DatasetStatusResponse) or st.status != api.DatasetStatus.not_present:
+                if not isinstance(st, api.DatasetStatusResponse) or not isinstance(st.status, api.DatasetStatus):
                     col.violation("shm-wire-status-differs", f"status of a purged dataset answered {st!r}", None, i)
+                elif st.status != api.DatasetStatus.not_present:
+                    # the store skips the purge of a dataset that is being paged out or is on disk (capacity reached after many
+                    # round trips): behaviour of the store (C08/C09), not of the encoding -- the reply itself is well formed
+                    col.observe("wire_purge_deferred_by_the_store_dataset_still_present")
                 fs = rpc(api.FreeSpaceRequest())
                 if not isinstance(fs, api.FreeSpaceResponse):
                     col.violation("shm-wire-freespace-type", repr(fs), None, i)
